@@ -401,7 +401,7 @@ class Contract:
         self.must_raise = ()
         self.raises_iff = True
         for k, v in vars(cls).items():
-            if k.startswith('__'):
+            if k.startswith('_'):
                 continue
             if k not in self.FIELDS:
                 raise TypeError(f'unknown contract field {k} in {target}')
